@@ -137,6 +137,46 @@ def _steps(rnd, nd, lo, edge, isfield):
     return out
 
 
+def observe(df, kind, nd, lo, edge, n, step, eid):
+    """one experiment: two equal objects, the copying form on one, the in-place form on the other; what happened, as Booleans"""
+    a, b = _build(df, kind, nd, lo, edge, n), _build(df, kind, nd, lo, edge, n)
+    before_a, before_b = _snapshot(df, a), _snapshot(df, b)
+    with np.errstate(all="ignore"):
+        try:
+            res = _apply(a, step, False)
+            cpok = True
+        except Exception:  # "rejected" = any exception
+            res, cpok = None, False
+        try:
+            ret = _apply(b, step, True)
+            ipok = True
+        except Exception:
+            ret, ipok = None, False
+    return {"id": eid, "cpok": cpok, "ipok": ipok,
+            "cpnormal": bool(cpok and _normal(df, res)), "ipnormal": bool(ipok and _normal(df, b)),
+            "ipself": bool(ipok and ret is b), "ipsame": bool(_snapshot(df, b) == before_b) if not ipok else True,
+            "cporig": bool(_snapshot(df, a) == before_a), "agree": bool(cpok and ipok and _agree(df, res, b))}
+
+
+def replay(ctx, df, witness):
+    """re-run one recorded experiment on the current tree; the verdict is TLC's (spec/C13X.tla)"""
+    i = witness["experiment"]
+    step = dict(i["step"])
+    for k in ("v", "s", "ref"):
+        if isinstance(step.get(k), list):
+            step[k] = tuple(step[k])
+    lo = list(i["p1"]) + [0.0] * (3 - len(i["p1"]))
+    edge = list(i["edges"]) + [1.0] * (3 - len(i["edges"]))
+    n = list(i["n"]) + [1] * (3 - len(i["n"]))
+    ev = observe(df, i["object"], i["ndim"], lo, edge, n, step, 1)
+    print("experiment:", i)
+    print("observed now:", ev, "\nrecorded   :", witness.get("observed"))
+    _, verdicts, _ = ctx.trace_check("C13X", "C13X.cfg", [ev], name="C13X_replay")
+    for v in verdicts:
+        print("still fails:", v)
+    return 1 if verdicts else 0
+
+
 def run_stage(ctx, df, nexp):
     rnd = random.Random(ctx.seed * 7 + 1313)
     events, info = [], {}
@@ -153,24 +193,9 @@ def run_stage(ctx, df, nexp):
         except Exception:
             continue  # the constructor refuses this configuration: not a transformation step
         for step in _steps(rnd, nd, lo, edge, kind == "field"):
-            a, b = _build(df, kind, nd, lo, edge, n), _build(df, kind, nd, lo, edge, n)
-            before_a, before_b = _snapshot(df, a), _snapshot(df, b)
-            with np.errstate(all="ignore"):
-                try:
-                    res = _apply(a, step, False)
-                    cpok = True
-                except Exception as ex:  # "rejected" = any exception
-                    res, cpok = None, False
-                try:
-                    ret = _apply(b, step, True)
-                    ipok = True
-                except Exception as ex:
-                    ret, ipok = None, False
             eid += 1
-            ev = {"id": eid, "cpok": cpok, "ipok": ipok,
-                  "cpnormal": bool(cpok and _normal(df, res)), "ipnormal": bool(ipok and _normal(df, b)),
-                  "ipself": bool(ipok and ret is b), "ipsame": bool(_snapshot(df, b) == before_b) if not ipok else True,
-                  "cporig": bool(_snapshot(df, a) == before_a), "agree": bool(cpok and ipok and _agree(df, res, b))}
+            ev = observe(df, kind, nd, lo, edge, n, step, eid)
+            cpok, ipok = ev["cpok"], ev["ipok"]
             events.append(ev)
             info[eid] = {"object": kind, "ndim": nd, "p1": lo[:nd], "edges": edge[:nd], "n": n[:nd], "step": step}
             ctx.count()
